@@ -14,7 +14,7 @@ import json
 import random
 import subprocess
 
-from common import Report, Violation, RLV, NCPU, parallel_map, h, run_sentinels
+from common import Report, Violation, RLV, NCPU, parallel_map, h, run_sentinels, panic_site
 from sqlcase import RL, ms
 
 
@@ -107,7 +107,7 @@ def fold_case(args):
                     res["distinct"].append(h(sql))
             elif ref["ok"] != opt["ok"]:
                 bad = opt if not opt["ok"] else ref
-                pan = (bad.get("panics") or [""])[0].split("|")[0].replace("/repo/", "")
+                pan = panic_site(bad.get("panics")[0]) if bad.get("panics") else ""
                 from c05 import err_class
                 side = "folded-fails" if not opt["ok"] else "runtime-fails"
                 res["violations"].append(dict(signature=f"{side}:{pan or err_class(bad.get('err', ''))}",
